@@ -13,8 +13,9 @@ CFG = {
     "level_text": "Lean 4 theorems for the path/lexing layer: lex_roundtrip (escape_jq_string is read back by the jq string lexer for every key, "
                   "no side condition), dot_notation_sound (full, over the repaired can_use_dot_notation; findings C28-F1/F2 fixed), "
                   "path_expr_sound (the rendered expression parses to the index chain and evaluates, in the jq model, to the sub-value the "
-                  "path denotes, for every tree/path; dot components must be jq identifiers, indices fit i64), range_eq_partial; node "
-                  "selection, byte range, type, at_offset/at_position and the crate's own jq are tied by correspondence.",
+                  "path denotes, for every tree/path; dot components must be jq identifiers, indices fit i64), find_node_at_offset_eq / located_start_eq (node selection and range start on the real index of "
+                  "every valid document, composing C05/C06/C07), range_eq_partial; the parent walk of path_to_bp over BP, the range end, "
+                  "at_position (line index) and the crate's own jq are tied by correspondence.",
     "level_note": "Trusts the jq model (Model/JqParse, Model/Jq: jq 1.7.1 grammar) as the meaning of `a jq expression`, the reference semi-index builder (C05) and BP/rank/select specs (C04, C07) under the BP-level "
                   "model, which the driver cross-checks against the node-table model on every request.",
     "technique": "Lean 4 model of path reconstruction / expression rendering + jq model evaluation; differential correspondence",
@@ -23,7 +24,8 @@ CFG = {
     "lean_modules": ["SuccinctlyVerif.Props.C28"],
     "lean_files": ["SuccinctlyVerif/Model/JsonLocate.lean", "SuccinctlyVerif/Model/JsonLocateBp.lean",
                    "SuccinctlyVerif/Proof/JsonLocate.lean", "SuccinctlyVerif/Proof/JsonLocateLex.lean",
-                   "SuccinctlyVerif/Proof/JsonLocatePath.lean", "SuccinctlyVerif/Props/C28.lean"],
+                   "SuccinctlyVerif/Proof/JsonLocatePath.lean", "SuccinctlyVerif/Proof/JsonLocateIndex.lean",
+                   "SuccinctlyVerif/Props/C28.lean"],
     "required_theorems": ["SV.Props.C28.lex_roundtrip", "SV.Props.C28.dot_notation_sound",
                           "SV.Props.C28.path_expr_sound", "SV.Props.C28.ofKey_dotOK"],
     "generated": [],
